@@ -33,6 +33,9 @@ type scenario struct {
 	Name     string       `json:"name"`
 	PageSize int          `json:"page_size"`
 	Steps    []alphh.Step `json:"steps"`
+	// Fresh: the governance contract has not emitted anything when the watcher starts; the node answers the
+	// event-count request with 404 until the first event exists (as a real full node does)
+	Fresh bool `json:"fresh_contract,omitempty"`
 }
 
 // hostile kinds -> message + token answer to install
@@ -199,6 +202,10 @@ func scenarios(r *ev.Run) []built {
 							steps = append(steps, alphh.Step{Op: "countlag", N: 0})
 						}
 						out = append(out, built{scenario{Name: fmt.Sprintf("n%d/hostile@%d:%s/page%d/%s", n, hp, hk, ps, variant), PageSize: ps, Steps: steps}, toks, msgs, hk, nil})
+						if hp < 0 && variant == "plain" {
+							// the same history on a freshly deployed governance contract (empty event log at start-up)
+							out = append(out, built{scenario{Name: fmt.Sprintf("n%d/fresh-contract/page%d", n, ps), PageSize: ps, Steps: steps, Fresh: true}, toks, msgs, hk, nil})
+						}
 					}
 				}
 			}
@@ -255,7 +262,9 @@ var executions, stimuli, curItem int
 
 func run(b built, steps []alphh.Step, check bool) string {
 	executions++
+	alphh.FreshContract404 = b.sc.Fresh
 	w := alphh.NewWorld(false, 10, b.sc.PageSize)
+	alphh.FreshContract404 = false
 	defer w.Close()
 	for k, v := range b.toks {
 		w.Sim.Tokens[k] = v
